@@ -528,6 +528,10 @@ class Context(interfaces.RequestProvider):
         for task in list(self._finding_remote):
             task.cancel(self._shutdown_cancellation)
 
+        if not self.request_interfaces:
+            # (asyncio.wait does not take an empty set)
+            return
+
         done, pending = await asyncio.wait(
             [
                 asyncio.create_task(
